@@ -32,10 +32,10 @@ TIERS = {
 }
 
 
-def gen_cfg(K, KV, nshards, shard, roots="all", emit=True, KU=0):
-    return ("CONSTANTS K = %d NShards = %d Shard = %d Emit = %s RootSel = \"%s\" KV = %d KU = %d\n"
+def gen_cfg(K, KV, nshards, shard, roots="all", emit=True, KU=0, names=()):
+    return ("CONSTANTS K = %d NShards = %d Shard = %d Emit = %s RootSel = \"%s\" KV = %d KU = %d RootNames = {%s}\n"
             "INIT Init\nNEXT Next\nVIEW View\n%s\nCHECK_DEADLOCK FALSE\n"
-            % (K, nshards, shard, "TRUE" if emit else "FALSE", roots, KV, KU,
+            % (K, nshards, shard, "TRUE" if emit else "FALSE", roots, KV, KU, ", ".join('"%s"' % n for n in names),
                "\n".join("INVARIANT " + i for i in GEN_INVARIANTS)))
 
 
@@ -54,11 +54,12 @@ def pkg_env(pkg_path):
 def one_shard(args):
     (K, KV, nshards, shard, roots, model, pkg_path, work) = args[:8]
     KU = args[8] if len(args) > 8 else 0
+    names = args[9] if len(args) > 9 else ()
     t0 = time.time()
     states = os.path.join(work, "states-%d.txt" % shard)
     trace = os.path.join(work, "trace-%d.json" % shard)
     env = {"LSP_MODEL": model}
-    rc, _ = common.run_tlc("Codec", gen_cfg(K, KV, nshards, shard, roots, KU=KU), env=env, out_path=states, heap="2g")
+    rc, _ = common.run_tlc("Codec", gen_cfg(K, KV, nshards, shard, roots, KU=KU, names=names), env=env, out_path=states, heap="2g")
     head = open(states, encoding="utf-8", errors="replace").read()
     gen_text = "\n".join(l for l in head.splitlines() if not l.startswith('"@S'))
     if "Model checking completed. No error has been found." not in gen_text:
@@ -126,7 +127,7 @@ def run(tier, model=None, pkg_path=None, use_cache=True, passes=None):
         for pi, ps in enumerate(passes):
             d = os.path.join(work, "p%d" % pi)
             os.makedirs(d)
-            jobs += [(ps["K"], ps["KV"], ps["shards"], s, ps["roots"], model, pkg_path, d, ps.get("KU", 0)) for s in range(ps["shards"])]
+            jobs += [(ps["K"], ps["KV"], ps["shards"], s, ps["roots"], model, pkg_path, d, ps.get("KU", 0), tuple(ps.get("names", ()))) for s in range(ps["shards"])]
         with cf.ThreadPoolExecutor(max_workers=common.NCPU) as ex:
             parts = list(ex.map(one_shard, jobs))
     finally:
